@@ -30,8 +30,9 @@ META = {
         'periodic, monotone-within-cycles, upper bound, model-2 range). Round 2: the rational remainder of Reservoir.Calculate is modelled '
         'and tied on every direct call and snapshot (average gradient x capped depth = Trock - Tsurf; fracture geometry by shape option; '
         'V = (N-1) x A x separation for volume options 1-3, option 4 verbatim; heat content linear/additive in volume and >= 0); a second '
-        'WellBores.Calculate call on the same object (district heating) gives the series of a fresh call but may report a stale count '
-        '(C05_second_call_stale_count_refuted, known finding); the cylindrical, SBT and user-profile reservoirs are tied for Trock / depth / '
+        'WellBores.Calculate call on the same object (district heating) gives the series AND the count of a fresh call (C05_second_call, '
+        'C05_second_call_count; before fix 825a507 a stale count could be reported: C05_second_call_pinned_stale_count_refuted, corpus '
+        'seed 06 is the regression witness); the cylindrical, SBT and user-profile reservoirs are tied for Trock / depth / '
         'average gradient (cylindrical and SBT apply no Tmax cap, SBT averages gradients without thicknesses: stated as _refuted theorems, '
         'outside the property quantifier).'),
     'level_note': ('Trusted: Coq kernel + vm_compute; the Python harness; float rounding is outside the theorems (comparison tolerance '
@@ -266,7 +267,7 @@ def part_history(ctx):
         for maxdd, drop, T, exact in history_cases(ctx, n, per):
             w = m.wellbores
             m.reserv.Tresoutput.value = np.array([float(x) for x in T])
-            prev = ctx.rng.choice([0, 0, 0, 1, 3])          # count left on the object by an earlier call (district heating calls twice)
+            prev = ctx.rng.choice([0, 0, 1, 3])             # count left on the object by an earlier call: must not show (fix 825a507)
             w.maxdrawdown.value, w.tempdropprod.value, w.redrill.value = float(maxdd), float(drop), prev
             try:
                 w.Calculate(m)
@@ -277,10 +278,7 @@ def part_history(ctx):
             if min(abs(x - drop - lim) for x in T[1:] or [lim + 1]) <= TOL * max(1, abs(lim)):   # decision within tolerance of its threshold
                 amb += 1
                 continue
-            # when the step does not redrill the pinned code leaves the earlier count (known finding); a repair that resets it is
-            # accepted too: the model is told which count was actually left behind
-            left = prev if int(w.redrill.value) == prev else 0
-            flat.append(([maxdd, F(n), F(left)] + [x - drop for x in T] + T, ('V', P + Tn + [F(int(w.redrill.value))])))
+            flat.append(([maxdd, F(n), F(prev)] + [x - drop for x in T] + T, ('V', P + Tn + [F(int(w.redrill.value))])))
             idx = next((j for j, x in enumerate(T) if x - drop < lim), 0)
             keys.append((n, idx))
             meta.append({'n': n, 'maxdrawdown': str(maxdd), 'drop': str(drop), 'Tres': [str(x) for x in T], 'first_below': idx, 'prev': prev})
@@ -514,9 +512,8 @@ def part_runs(ctx, inputs):
             if min(abs(x - lim) for x in Ppre[1:first + 1] or [lim + 1]) <= TOL * max(1, abs(lim)):
                 amb += 1
             else:
-                # district heating calls WellBores.Calculate twice: the count of the first call (not observable) persists when the
-                # second does not redrill, so the model is given the reported count as the one left behind
-                dd.append(([F(m), Trock, Tinj, dp, maxdd, life, F(n), cpw, k_, rho, cpr, F(red if dh else 0)] + dflat + extra,
+                # (district heating calls WellBores.Calculate twice; the count is reset on every call since fix 825a507)
+                dd.append(([F(m), Trock, Tinj, dp, maxdd, life, F(n), cpw, k_, rho, cpr, F(0)] + dflat + extra,
                            ('V', T + P + [F(red)] + tail), ref, m))
             tvs[(life, n)] = tv
         # --- report lines (observe_at): what is printed is what was computed
@@ -755,7 +752,7 @@ def replay(ctx, data):
         P, Tn = [F(x) for x in m.wellbores.ProducedTemperature.value], [F(x) for x in m.reserv.Tresoutput.value]
         red = int(m.wellbores.redrill.value)
         bad = _kernel(ctx, 'replay', ['Model.Redrill'], 'run_redrill', TOL,
-                      [([maxdd, F(len(T)), F(c.get('prev', 0) if red == c.get('prev', 0) else 0)] + [x - drop for x in T] + T, ('V', P + Tn + [F(red)]))])
+                      [([maxdd, F(len(T)), F(c.get('prev', 0))] + [x - drop for x in T] + T, ('V', P + Tn + [F(red)]))])
         print('WellBores.Calculate -> redrill', red, 'ProducedTemperature', [float(x) for x in P][:40], '| model agrees:', not bad)
         lim = (1 - maxdd) * P[0]
         if P[0] >= 0 and any(x < lim - OTOL * max(1, abs(lim)) for x in P):
